@@ -1,9 +1,47 @@
 package main
 
+import "strings"
+
+const c07TwoVarsReplay = `package mocker_test
+
+import (
+	"testing"
+
+	mocker "github.com/tencent/goom"
+)
+
+type demoGreeter interface {
+	Greet(name string) string
+}
+
+func TestGovcReplay(t *testing.T) {
+	mock := mocker.Create()
+	defer mock.Reset()
+	var g1, g2 demoGreeter
+	mock.Interface(&g1).Method("Greet").Apply(func(ctx *mocker.IContext, name string) string { return "one:" + name })
+	mock.Interface(&g2).Method("Greet").Apply(func(ctx *mocker.IContext, name string) string { return "two:" + name })
+	if g2 == nil {
+		t.Fatalf("the second variable of the same interface type was not mocked (still nil)")
+	}
+	if got := g1.Greet("x"); got != "one:x" {
+		t.Errorf("g1.Greet = %q, want one:x (mocking g2 changed g1)", got)
+	}
+	if got := g2.Greet("x"); got != "two:x" {
+		t.Errorf("g2.Greet = %q, want two:x", got)
+	}
+}
+`
+
 func init() {
 	registerProperty(&PropertyConfig{
 		ID:      "C07",
 		Explain: "slot/frame contracts on the fabricated interface value: method slot == index of the named method, every other slot == the panicking default, first mock backs up the variable and Cancel writes exactly that back, stub bytes load the callback's func value (C15) into space from stub.Acquire (C20)",
+		Replay: func(o *Options, g *groupResult, model map[string]string) (string, string, bool) {
+			if strings.Contains(g.name, ".Builder).Interface#") {
+				return ".", c07TwoVarsReplay, true
+			}
+			return "", "", false
+		},
 		Trusted: []string{"reflect's method order of an interface type equals the itab slot order", "a fabricated itab is accepted by the runtime", "GC reachability of callbacks embedded in stubs is NOT decided (see DESIGN: retention)"},
 	})
 }
